@@ -16,6 +16,8 @@ use crate::{
 pub use self::validator::ConnectionValidator;
 #[cfg(all(greatest_ape_aquatic_verif, kani))]
 pub use self::validator::verif_harness as verif_validator_harness;
+#[cfg(all(greatest_ape_aquatic_verif, kani))]
+pub use self::mio::verif_harness as verif_mio_harness;
 
 #[cfg(all(not(target_os = "linux"), feature = "io-uring"))]
 compile_error!("io_uring feature is only supported on Linux");
